@@ -166,7 +166,14 @@ func classifyRecord(ty types.Type) (kind, bool) {
 		}
 	}
 	if m, ok := ty.Underlying().(*types.Map); ok {
+		isSetElem := false
 		if b, ok := m.Elem().Underlying().(*types.Basic); ok && b.Kind() == types.Bool {
+			isSetElem = true
+		}
+		if st, ok := m.Elem().Underlying().(*types.Struct); ok && st.NumFields() == 0 {
+			isSetElem = true // map[K]struct{}
+		}
+		if isSetElem {
 			if kk, _ := classifyBasic(m.Key()); kk == kNat || kk == kInt {
 				return kSet, true
 			}
@@ -223,7 +230,7 @@ func (t *tr) emitRecords(sb *strings.Builder) {
 				}
 				sb.WriteString(fmt.Sprintf("  %s : %s\n", leanName(f), ri.fieldTy[f]))
 			}
-			sb.WriteString("\n")
+			sb.WriteString("  deriving Inhabited, Repr, BEq\n\n")
 			ri.emitted = true
 		}
 		if !progress {
@@ -309,6 +316,9 @@ func (t *tr) nilTest(e ast.Expr) (string, bool) {
 // rangeStmt: for i, x := range L { … } over a list of records
 func (t *tr) rangeStmt(x *ast.RangeStmt, rest []ast.Stmt, depth int, k func() string) string {
 	f := t.f
+	if kd, _ := t.kindOf(x.X); kd == kInt || kd == kNat || kd == kBytes {
+		return t.rangeIndexed(x, kd, rest, depth, k)
+	}
 	if kd, _ := t.kindOf(x.X); kd != kRecList {
 		return t.fail(x, "range over %s", t.typeOf(x.X))
 	}
@@ -354,7 +364,8 @@ func (t *tr) rangeStmt(x *ast.RangeStmt, rest []ast.Stmt, depth int, k func() st
 			state = append(state, o)
 		}
 	}
-	sort.Slice(state, func(i, j int) bool { return state[i].Pos() < state[j].Pos() })
+	t.rankAll(state)
+	sort.Slice(state, func(i, j int) bool { return t.rank(state[i]) < t.rank(state[j]) })
 	var tys, inits []string
 	for _, o := range state {
 		tys = append(tys, t.leanTypeOfObj(o))
@@ -371,12 +382,7 @@ func (t *tr) rangeStmt(x *ast.RangeStmt, rest []ast.Stmt, depth int, k func() st
 	f.loopN++
 	ln := fmt.Sprintf("loop%d", f.loopN)
 	sn := fmt.Sprintf("s%d", f.loopN)
-	for f.hasBinder(iname) {
-		iname += "'"
-	}
-	for f.hasBinder(vname) {
-		vname += "'"
-	}
+	iname, vname = fmt.Sprintf("i%d", f.loopN), fmt.Sprintf("x%d", f.loopN) // canonical, not the Go names
 	savedB, savedEnv, savedName := f.binders, t.cloneEnv(), f.name
 	outerArgs, outerDecl := f.args(), f.binderDecl()
 	f.binders = append(append([]binder{}, f.binders...), binder{sn, sigma}, binder{iname, "Int"}, binder{vname, ri.lean})
@@ -439,6 +445,72 @@ func (t *tr) rangeStmt(x *ast.RangeStmt, rest []ast.Stmt, depth int, k func() st
 	return fmt.Sprintf("%smatch %s.1 with\n%s| some r__ => %s\n%s| none =>\n%s", ind(depth), res, ind(depth), t.wrapRet("r__"), ind(depth), after)
 }
 
+// rangeIndexed: `for i := range n` and `for i[, v] := range b` (b a byte slice) are the index loop
+// `for i := 0; i < n / len(b); i++` with v read as b[i] — the same generated text as that loop.
+func (t *tr) rangeIndexed(x *ast.RangeStmt, kd kind, rest []ast.Stmt, depth int, k func() string) string {
+	if x.Tok != token.DEFINE && x.Key != nil {
+		return t.fail(x, "range with assignment to existing variables")
+	}
+	var iobj, vobj types.Object
+	if id, ok := x.Key.(*ast.Ident); ok && id.Name != "_" {
+		iobj = t.u.info.Defs[id]
+	}
+	if x.Value != nil {
+		if id, ok := x.Value.(*ast.Ident); ok && id.Name != "_" {
+			vobj = t.u.info.Defs[id]
+		}
+	}
+	var bound string
+	var pre func(in string)
+	if kd == kBytes {
+		// the variable (if any) whose memory the ranged expression reads: b, b[lo:hi], a view
+		var base ast.Expr = x.X
+		for {
+			if se, ok := base.(*ast.SliceExpr); ok {
+				base = se.X
+				continue
+			}
+			if pe, ok := base.(*ast.ParenExpr); ok {
+				base = pe.X
+				continue
+			}
+			break
+		}
+		root, _ := t.placeObj(base)
+		if vw := t.viewOf(base); vw != nil {
+			root = vw.root
+		}
+		if vobj != nil && root != nil && t.assignedObjs(x.Body.List)[root] {
+			return t.fail(x, "range over a byte slice that the body modifies")
+		}
+		b := t.expr(x.X)
+		bound = "(GoSem.len " + b + ")"
+		if vw := t.viewOf(x.X); vw != nil {
+			bound = "(" + t.f.env[vw.hi] + " - " + t.f.env[vw.lo] + ")"
+		}
+		if vobj != nil {
+			pre = func(in string) { t.f.env[vobj] = fmt.Sprintf("(GoSem.getAt %s %s)", b, in) }
+		}
+	} else {
+		if vobj != nil {
+			return t.fail(x, "range over an integer with two variables")
+		}
+		bound = t.intExpr(x.X)
+	}
+	if iobj != nil {
+		if kdi, w := classify(iobj.Type()); kdi != kInt || w != 64 {
+			return t.fail(x, "range index of type %s", iobj.Type())
+		}
+	}
+	if !exits(x.Body.List) {
+		return t.simpleLoop(x, iobj, nil, bound, x.Body, pre, rest, depth, k)
+	}
+	if iobj == nil {
+		iobj = types.NewVar(x.Pos(), t.u.pkg, "i", types.Typ[types.Int])
+	}
+	return t.loopCore(x, x.Body, iobj, fmt.Sprintf("(GoSem.rangeUp (0 : Int) %s)", bound), nil, pre, rest, depth, k)
+}
+
 // containsFunc: slices.ContainsFunc(l, func(x *T) bool { … }) over a list of records
 func (t *tr) containsFunc(c *ast.CallExpr) string {
 	f := t.f
@@ -464,10 +536,7 @@ func (t *tr) containsFunc(c *ast.CallExpr) string {
 	}
 	f.loopN++
 	cn := fmt.Sprintf("pred%d", f.loopN)
-	pname := leanName(pid.Name)
-	for f.hasBinder(pname) {
-		pname += "'"
-	}
+	pname := fmt.Sprintf("p%d", f.loopN)
 	savedB, savedEnv, savedName := f.binders, t.cloneEnv(), f.name
 	savedOpt, savedN, savedOuts, savedLoops, savedRes, savedSt := f.optional, f.nres, f.outs, f.loops, f.resTy, f.stateful
 	outerArgs := f.args()
